@@ -18,7 +18,7 @@ def sh(cmd, cwd=None, env=None, timeout=3600):
 
 
 assert sh('git -C /repo status --porcelain')[1].strip() == '', '/repo has uncommitted changes'
-out = {}
+out = json.load(open(V + '/seeded/RECHECK.json')) if only and os.path.exists(V + '/seeded/RECHECK.json') else {}
 for d in sorted(glob.glob(V + '/seeded/*/')):
     sid = os.path.basename(d[:-1])
     if only and sid not in only:
